@@ -5,12 +5,12 @@ wt="$1"; i="$2"; id="$3"; shift 3
 d="$wt/seeded/$i"
 git -C "$wt" checkout -q -- . || exit 2
 cd "$wt" || exit 2
-PYTHONPATH="$wt" /venv/bin/python -W ignore "$d/demo.py" > /tmp/confirm_clean.log 2>&1; c0=$?
+PYTHONPATH="$wt" /venv/bin/python -W ignore "$d/demo.py" > /tmp/confirm_clean.$$.log 2>&1; c0=$?
 git -C "$wt" apply "$d/patch.diff" || { echo "patch does not apply"; exit 2; }
-PYTHONPATH="$wt" /venv/bin/python -W ignore "$d/demo.py" > /tmp/confirm_mut.log 2>&1; c1=$?
+PYTHONPATH="$wt" /venv/bin/python -W ignore "$d/demo.py" > /tmp/confirm_mut.$$.log 2>&1; c1=$?
 if [ $# -gt 0 ]; then
-  PYTHONPATH="$wt" timeout 3000 /venv/bin/python -m pytest -q -p no:cacheprovider "$@" > /tmp/confirm_tests.log 2>&1; ct=$?
-  tests="$(tail -1 /tmp/confirm_tests.log)"
+  PYTHONPATH="$wt" timeout 3000 /venv/bin/python -m pytest -q -p no:cacheprovider "$@" > /tmp/confirm_tests.$$.log 2>&1; ct=$?
+  tests="$(tail -1 /tmp/confirm_tests.$$.log)"
 else ct=0; tests="(none run here)"; fi
 git -C "$wt" checkout -q -- .
 echo "seed $id: demo clean exit=$c0, demo with change exit=$c1, tests exit=$ct: $tests"
